@@ -184,7 +184,11 @@ def verdict(prop, cfg, tier, seed, pr, results, runner, drv, t0, vp):
             nontriv += runner.nontrivial_stats(os.path.join(d, "impl"))
         else:
             nontriv += vp.nontrivial_stats(os.path.join(d, "impl"), cfg["target"])
-        for l in open(os.path.join(d, "viol")):
+        try:
+            vlines = open(os.path.join(d, "viol")).readlines()
+        except OSError:
+            vlines = []
+        for l in vlines:
             if l.startswith("VIOL " + prop + " "):
                 viols.append((d, l.strip()))
             elif l.startswith("VIOL * "):          # non-termination: a violation of whatever is being checked
@@ -250,7 +254,11 @@ def verdict(prop, cfg, tier, seed, pr, results, runner, drv, t0, vp):
             xs = list(ex.map(runner.run_shard, jobs))
         found = None
         for r in xs:
-            for l in open(os.path.join(r["dir"], "viol")):
+            try:
+                xlines = open(os.path.join(r["dir"], "viol")).readlines()
+            except OSError:
+                xlines = []              # the harness died before it wrote anything (already counted as a divergence)
+            for l in xlines:
                 if (l.startswith("VIOL " + prop + " ") or l.startswith("VIOL * ")) and not vp.match_known(prop, l, known):
                     found = (r["dir"], l.strip())
                     break
